@@ -140,6 +140,8 @@ theorem Stable.decDisc (s : State) (k : NoteId) : Stable s (s.decDisc k) :=
   Stable.modNote s k ⟨fun _ h => h, fun _ h => h, fun _ h => h⟩
 theorem Stable.setWaiters (s : State) (k : NoteId) (ws : List Rid) : Stable s (s.setWaiters k ws) :=
   Stable.modNote s k ⟨fun _ h => h, fun _ h => h, fun _ h => h⟩
+theorem Stable.setAdopted (s : State) (k : NoteId) (b : Bool) : Stable s (s.setAdopted k b) :=
+  Stable.modNote s k ⟨fun _ h => h, fun _ h => h, fun _ h => h⟩
 theorem Stable.setExpiry (s : State) (k : NoteId) (d : Dl) : Stable s (s.setExpiry k d) :=
   Stable.modNote s k ⟨fun _ h => h, fun _ h => h, fun _ h => h⟩
 theorem Stable.setNotified (s : State) (k : NoteId) : Stable s (s.setNotified k) :=
@@ -186,20 +188,30 @@ theorem Stable.afterNotify (s : State) (t : Tid) (n : NoteId) (k : NK) :
   · exact Stable.setPc _ _ _
   · exact Stable.afterDeadline _ _ _ _ _
 
+theorem Stable.childUnlink (s : State) (f : Frame) (rest : List Frame) (top : Top) :
+    Stable s (childUnlink s f rest top) := by
+  unfold Note.childUnlink; split
+  · exact Stable.unlink _ _ _
+  · exact Stable.refl _
+
 theorem Stable.childReturn (s : State) (t : Tid) (f : Frame) (rest : List Frame) (top : Top) :
     Stable s (childReturn s t f rest top) := by
   unfold Note.childReturn; split
-  · exact (Stable.decDisc s _).trans (Stable.setPc _ _ _)
-  · exact Stable.setPc _ _ _
+  · exact ((Stable.childUnlink s _ _ _).trans (Stable.decDisc _ _)).trans (Stable.setPc _ _ _)
+  · exact (Stable.childUnlink s _ _ _).trans (Stable.setPc _ _ _)
+
+theorem Stable.childScanStart (s : State) (t : Tid) (f : Frame) (rest : List Frame) (top : Top) :
+    Stable s (childScanStart s t f rest top) :=
+  (Stable.setAdopted s _ _).trans (Stable.setPc _ _ _)
 
 theorem Stable.childWakeNext (s : State) (t : Tid) (f : Frame) (rest : List Frame) (top : Top) :
     Stable s (childWakeNext s t f rest top) := by
   unfold Note.childWakeNext; split
   · exact (Stable.setWaiters s _ _).trans (Stable.setPc _ _ _)
-  · exact Stable.setPc _ _ _
+  · exact Stable.childScanStart _ _ _ _ _
 
 theorem Stable.freeLoopStart (s : State) (t : Tid) (n : NoteId) (par : Option NoteId) :
-    Stable s (freeLoopStart s t n par) := Stable.setPc _ _ _
+    Stable s (freeLoopStart s t n par) := (Stable.setAdopted s _ _).trans (Stable.setPc _ _ _)
 
 theorem Stable.enterChild (s : State) (t : Tid) (n : NoteId) (par : Option NoteId) (k : NK) :
     Stable s (enterChild s t n par k) := Stable.setPc _ _ _
@@ -212,6 +224,7 @@ macro "stable_tac" : tactic => `(tactic| (
     | refine Stable.trans ?_ (Stable.afterNotify _ _ _ _)
     | refine Stable.trans ?_ (Stable.childReturn _ _ _ _ _)
     | refine Stable.trans ?_ (Stable.childWakeNext _ _ _ _ _)
+    | refine Stable.trans ?_ (Stable.childScanStart _ _ _ _ _)
     | refine Stable.trans ?_ (Stable.freeLoopStart _ _ _ _)
     | refine Stable.trans ?_ (Stable.enterChild _ _ _ _ _)
     | refine Stable.trans ?_ (Stable.afterDeadline _ _ _ _ _)
@@ -234,12 +247,13 @@ macro "stable_tac" : tactic => `(tactic| (
     | refine Stable.trans ?_ (Stable.unlink _ _ _)
     | refine Stable.trans ?_ (Stable.setWaiters _ _ _)
     | refine Stable.trans ?_ (Stable.setExpiry _ _ _)
+    | refine Stable.trans ?_ (Stable.setAdopted _ _ _)
     | refine Stable.trans ?_ (Stable.setNotified _ _)
     | refine Stable.trans ?_ (Stable.markFreed _ _)
     | refine Stable.trans ?_ (Stable.eraseChild _ _ _)
     | refine Stable.trans ?_ (Stable.clearParent _ _))))
 
-attribute [local irreducible] afterNotify childReturn childWakeNext freeLoopStart enterChild
+attribute [local irreducible] afterNotify childReturn childWakeNext childScanStart State.setAdopted freeLoopStart enterChild
   afterDeadline State.setPc State.modNote State.modRec State.acquire State.release State.incDisc
   State.decDisc State.link State.unlink State.addUser State.delUser State.markFreeing
   State.markCalled State.markBorn State.publish State.setAfter State.pushObs State.setNow
